@@ -171,6 +171,20 @@ def check_C02(ctx):
                              "contents: pseudo-random, zeros, repetitive text; sizes are boundary-chosen"])
 
 
+def check_C09(ctx):
+    th = ctx.thorough()
+    b = ctx.bin(DISK)
+    shards = 16
+    budget = 2400 if th else 200
+    jobs = [Job(b, "TestVfC09", name="C09#%d" % i, timeout=budget + 120,
+                env={"VERIF_SHARD": "%d/%d" % (i, shards), "VERIF_BUDGET_S": str(budget), "GOMAXPROCS": "2"}) for i in range(shards)]
+    return dict(level="exploration", jobs=jobs,
+                rule="exhaustive over a grammar of directory populations: every single entry, every ordered pair and (representative / all) ordered triples over 10 layout-kinds (v2 zstd CAS, v2 .v1 CAS, v2 AC, v2 RAW, legacy flat and two-level cas/ac/raw) with size patterns over {1 B, 1 block, 3 blocks}, atime rank = position; plus lost+found/.DS_Store at every level and duplicate files for one key; x max_size in {total+1 block, total, total-1 block, largest-1 block, 1 block} x storage mode after restart; real disk.New on each; non-trivial = distinct (kind multiset, max_size class, mode, survivors) combinations",
+                assumptions=["file access times are set explicitly with Chtimes, one hour apart (no ties)",
+                             "reference: file-level simulation of 'evict oldest atime first; a file larger than max_size is dropped and displaces nothing'",
+                             "duplicates are checked with a max_size that needs no eviction"])
+
+
 def check_C13(ctx):
     b = ctx.bin(".")
     jobs = []
@@ -190,7 +204,7 @@ def check_C13(ctx):
                              "a method unknown to the harness's read-only list is treated as mutating"])
 
 
-CHECKS = {"C01": check_C01, "C02": check_C02, "C13": check_C13, "C03": check_C03, "C04": check_C04, "C05": check_C05, "C07": check_C07}
+CHECKS = {"C01": check_C01, "C02": check_C02, "C09": check_C09, "C13": check_C13, "C03": check_C03, "C04": check_C04, "C05": check_C05, "C07": check_C07}
 
 # per-property manifest metadata
 META = {
@@ -206,6 +220,12 @@ META = {
         note="Finite grid; chunk-boundary arithmetic is exercised exhaustively on small-chunk files and at boundary offsets on 1 MiB-chunk files.",
         technique="exhaustive enumeration of a finite input/configuration grid through the real entry points against a byte-exact oracle",
         design_ref="DESIGN.md 2.5, 3 (C02)"),
+    "C09": dict(
+        category="exploration", engine="E4 grid",
+        text="Bounded-exhaustive enumeration of cache directory populations (all singles, ordered pairs and ordered triples over ten layout kinds incl. the legacy flat/two-level ac/ cas/ raw/ layouts, .v1 and compressed CAS, with block-edge sizes and atime order = position; lost+found and .DS_Store at every level; duplicate files per key) x max_size (above/equal/below total, below the largest file, one block) x storage mode after restart, each started with the real disk.New. Oracle: start-up succeeds; survivors == oldest-first eviction simulation; each survivor readable with identical content and size (size known and unknown); no leftover files or legacy directories; accounting == directory; later uploads evict the survivors in atime order.",
+        note="Small-scope: <=3 entries per population, three size classes; atimes set explicitly.",
+        technique="exhaustive enumeration of a bounded grammar of on-disk states x configurations, real start-up code, reference simulation oracle",
+        design_ref="DESIGN.md 3 (C09)"),
     "C13": dict(
         category="exploration", engine="E4 grid",
         text="Exhaustive finite access matrix against the real start-up code: main's run() is started with flags for each of {no auth, htpasswd, mTLS} x allow_unauthenticated_reads x enable_endpoint_metrics (x remote asset API), on unix sockets; every HTTP method x endpoint (/cas, /ac, instance-prefixed /ac, /status, /metrics, /) and every registered gRPC method (discovered from all linked protobuf service descriptors) is called with every credential state (none, malformed, not-basic, unknown user, wrong/empty password, via authorization and via :authority; no / unverified / valid client certificate). Oracle written from the property: mutating or unknown => refused without valid credentials always; read-only => refused unless allow_unauthenticated_reads; valid => never refused; health Check always open; cache content unchanged.",
